@@ -255,6 +255,8 @@ class ParallelRunner(SimpleRunner):
                     if m.startswith('accept') and 'states=' in m:
                         self.stats[c.rsplit(' ', 1)[0]] = m
                     v = oracles.parallel_trace_oracle(c, o, self.which)
+                elif fam == 'par_z':
+                    v = oracles.parallel_init_oracle(c, o, self.which)
                 else:
                     v = oracles.parallel_real_oracle(c, o, s, self.which)
                 if v.failures:
@@ -308,7 +310,7 @@ PROPS['C07'] = dict(
 )
 PROPS['C08'] = dict(
     theorems=[],
-    runner=ParallelRunner(quick=[('par_x', 1500), ('par_y', 500)], thorough=[('par_x', 40000), ('par_y', 10000)],
+    runner=ParallelRunner(quick=[('par_x', 1500), ('par_y', 500), ('par_z', 500)], thorough=[('par_x', 40000), ('par_y', 10000), ('par_z', 10000)],
                           which={'terminate'}),
     rule='same runs as C07 under a 8 s watchdog per call and a thread census (with grace period) after each call; '
          'consumer plans: drain / stop after k for every k / never ask; reader error; reader- and data-set-init failures',
@@ -316,7 +318,7 @@ PROPS['C08'] = dict(
 )
 PROPS['C15'] = dict(
     theorems=[],
-    runner=ParallelRunner(quick=[('par_x', 1500), ('par_y', 1500)], thorough=[('par_x', 40000), ('par_y', 30000)],
+    runner=ParallelRunner(quick=[('par_x', 1500), ('par_y', 1500), ('par_z', 1500)], thorough=[('par_x', 40000), ('par_y', 30000), ('par_z', 30000)],
                           which={'errors'}),
     rule='reader error at the end of 0-40 batches, each initialisation closure failing at each call index, consumers that stop at or '
          'continue after the error; real readers on mutated input: parallel error message equals sequential error message',
@@ -324,9 +326,9 @@ PROPS['C15'] = dict(
 )
 PROPS['C16'] = dict(
     theorems=[],
-    runner=ParallelRunner(quick=[('par_x', 1500)], thorough=[('par_x', 40000)], which={'bounded'}),
+    runner=ParallelRunner(quick=[('par_x', 1500), ('par_y', 800)], thorough=[('par_x', 40000), ('par_y', 20000)], which={'bounded'}),
     rule='creation counter of the data-set initialiser and run-ahead (fills minus results logged) at every point of every trace; '
-         'inputs up to 40 batches with queue lengths 1-4; non-trivial = more batches than data sets (recycling happened)',
+         'inputs up to 40 batches with queue lengths 1-4; real parallel_fasta/fastq with a counting per-record output type: creations <= (Q+1) x largest batch; non-trivial = recycling happened',
     assumptions=ASSUME_PAR + ['memory is not measured; the claim is carried by the counts of data sets'],
 )
 
